@@ -90,7 +90,8 @@ def check_load_handlers(A, R, rid, rid_force=None):
                     if any(tr.handlers.index(g.ast) < idx for g in generic if g.ast._parent is tr):
                         problems.append('generic handler precedes the CacheException handler (it would never fire)')
                 for g in generic:
-                    rets = [cfg.nodes[d] for d in nx.descendants(cfg.g, g.id) if cfg.nodes[d].kind == 'stmt' and isinstance(cfg.nodes[d].ast, ast.Return) and cfg.nodes[d].id in _handler_body(cfg, g)]
+                    rets = [cfg.nodes[d] for d in nx.descendants(cfg.g, g.id) if cfg.nodes[d].kind == 'stmt' and isinstance(cfg.nodes[d].ast, ast.Return) and cfg.nodes[d].id in _handler_body(cfg, g)
+                            and getattr(cfg.nodes[d], 'owner', f.node) is f.node]   # a `return` of an inlined helper hands its outcome to the caller: what the caller does with it is checked below
                     if rets:
                         problems.append('generic handler returns from inside the handler')
                     if f is goc:
@@ -203,6 +204,18 @@ def run(A, R: Report, thorough: bool):
         if truthy and not ident:
             R.violation('R14.3', 'JsonCache.load_value: None check', key_of('none-by-truthiness', truthy[0][0]), f'the stored value is rejected when `{truthy[0][0]}` is falsy: with allow_nones=False a stored 0, "", [] or False can be written but never read back (CacheException on every later access)',
                         where=where(lv, rn.ast))
+    # the same in helpers of JsonCache (a shared `_check_value`): the "value is None" error is raised on identity with None only
+    for m_ in jc.methods.values():
+        if m_ is lv:
+            continue
+        cfgm_ = A.cfg(m_)
+        for rn in [n_ for n_ in cfgm_.nodes.values() if n_.kind == 'stmt' and isinstance(n_.ast, ast.Raise) and n_.ast.exc is not None and n_.id in cfgm_.reachable_nodes()]:
+            fx = facts_text(A, m_, cfgm_, rn.id)
+            truthy = [(t_, pol) for t_, pol in fx if not pol and (t_ in m_.params or t_.endswith("['value']")) and 'value' in t_]
+            ident = [(t_, pol) for t_, pol in fx if ('is None' in t_ and pol) or ('is not None' in t_ and not pol)]
+            if truthy and not ident:
+                R.violation('R14.3', f'JsonCache.{m_.name}: None check', key_of('none-by-truthiness', truthy[0][0]), f'the stored value is rejected when `{truthy[0][0]}` is falsy: with allow_nones=False a stored 0, "", [] or False can be written but never read back (CacheException on every later access)',
+                            where=where(m_, rn.ast))
     # CacheException means "this file belongs to another key" (get / get_or_compute re-raise it); a file that cannot be decoded must stay an ordinary error
     for ci_ in [c_ for c_ in A.prog.classes.values() if c_.is_subclass_of(A.cls('FileCache'))]:
         lv_ = ci_.methods.get('load_value')
